@@ -47,6 +47,9 @@ pub enum IntegDecl {
     MultiAllWrong,
     /// two correct hashes: one under the writer's algorithm and one under another algorithm
     MultiTwoAlgos,
+    /// the (correct) digest of ANOTHER value of the pool under the writer's algorithm — an
+    /// address that may well exist in the cache
+    DigestOfOtherBlob,
 }
 
 /// Something another process does to the cache between a writer's last chunk and its commit.
@@ -99,6 +102,10 @@ pub struct WriteSpec {
     pub pause_ms: u8,
     #[serde(default)]
     pub interfere: Interfere,
+    /// 0 = plain `write` calls; n > 0 = every chunk is handed over through `write_vectored`
+    /// as up to n slices
+    #[serde(default)]
+    pub vectored: u16,
 }
 
 impl WriteSpec {
@@ -117,6 +124,7 @@ impl WriteSpec {
             flush: false,
             pause_ms: 0,
             interfere: Interfere::None,
+            vectored: 0,
         }
     }
     pub fn streamed(&self) -> bool {
@@ -253,6 +261,9 @@ pub enum Op {
     ForeignRecord { bucket_of: usize, key: usize, addr: AddrRef },
     /// harness-side, driver processes only: change the working directory to `<scratch>/cwd/d<dir>`
     Chdir { dir: usize },
+    /// harness-side: `<cache>/tmp` becomes a symlink to a directory on another filesystem (a
+    /// legal layout in which the temp file cannot be renamed into the content area)
+    TmpElsewhere,
     /// harness-side: append a checksum-valid record for `key` (in its own bucket) whose
     /// integrity text is arbitrary — a state no well-formed call produces; lookups of that key
     /// are then judged by agreement (listing vs lookup, flavour vs flavour), not by the model
@@ -261,7 +272,7 @@ pub enum Op {
 
 impl Op {
     pub fn is_harness_side(&self) -> bool {
-        matches!(self, Op::DamageContent { .. } | Op::DamageBucket { .. } | Op::ForeignRecord { .. } | Op::Chdir { .. } | Op::PlantRecord { .. })
+        matches!(self, Op::DamageContent { .. } | Op::DamageBucket { .. } | Op::ForeignRecord { .. } | Op::Chdir { .. } | Op::PlantRecord { .. } | Op::TmpElsewhere)
     }
     pub fn name(&self) -> &'static str {
         match self {
@@ -288,6 +299,7 @@ impl Op {
             Op::ForeignRecord { .. } => "foreign_record",
             Op::Chdir { .. } => "chdir",
             Op::PlantRecord { .. } => "plant_record",
+            Op::TmpElsewhere => "tmp_elsewhere",
         }
     }
 }
